@@ -59,7 +59,9 @@ func suiteBlockProof(c *Ctx) {
 	if c.Thorough() {
 		total = 80000
 	}
+	defer func() { idScheme = 0 }()
 	for it := 0; it < total; it++ {
+		idScheme = []int{0, 0, 1, 2}[it%4] // long ids sharing a prefix: abbreviations must not be used as identities
 		inst := uint64(100 + r.Intn(2))
 		w := NewWorld(inst)
 		n := 4 + r.Intn(5)
@@ -95,7 +97,7 @@ func suiteBlockProof(c *Ctx) {
 		v := uint64(r.Intn(3))
 		// the genuine ingredients
 		typ, pinst, ph, hash := protocol.LEAN_HELIX_COMMIT, inst, h, blockHash(blk)
-		mutation := r.Intn(16)
+		mutation := r.Intn(17)
 		switch mutation {
 		case 1:
 			typ = []protocol.MessageType{protocol.LEAN_HELIX_PREPARE, protocol.LEAN_HELIX_PREPREPARE, 0, 7}[r.Intn(4)]
@@ -134,9 +136,18 @@ func suiteBlockProof(c *Ctx) {
 				signers = append(signers, signers[r.Intn(len(signers))])
 			}
 		case 6: // outsider with a valid key
-			signers = append(signers, []byte{0xee, 1})
+			signers = append(signers, outsiderId(1))
 		case 7: // outsider first
-			signers = append([][]byte{{0xee, 2}}, signers...)
+			signers = append([][]byte{outsiderId(2)}, signers...)
+		case 16: // outsiders only (valid keys; under id schemes 1 and 2 their ids share a long prefix with the members' ids), as many as would make a quorum of members
+			k := len(signers)
+			if k == 0 {
+				k = n
+			}
+			signers = nil
+			for j := 0; j < k; j++ {
+				signers = append(signers, outsiderId(j))
+			}
 		}
 		var nodes []*protocol.SenderSignatureBuilder
 		for i, id := range signers {
